@@ -42,4 +42,10 @@ theorem load_single_increments :
 (the fixed defect: `load_exact` is false of that code). -/
 theorem load_not_one_shot : Facts.c08_load_one_shot_increment = false := by decide
 
+/-- `rpc/core.Validators` takes the set it reports under `height` from
+`StateStore.LoadValidators(height)` and from nowhere else (model: `rpcValidators`). -/
+theorem rpc_validators_source :
+    Facts.c08_rpc_validators_from_store = true ∧ Facts.c08_rpc_validators_from_memory = false := by
+  decide
+
 end Tmv.Expect.C08
